@@ -49,6 +49,42 @@ def rewrite_cases(path, rng, per_field, tag):
     return out
 
 
+def tail_cases(path, tag):
+    """Record arrays that end a few bytes before / at / behind the end of their table: every Sill language's settings
+    (8 bytes each) and every Feat feature's settings (4 bytes each) are pointed at each offset from one whole record
+    before the position where the array would just fit, to a few bytes behind it."""
+    S = sfnt.Sfnt(path)
+    out = []
+    t = S.table("Sill")
+    if t and len(t) >= 12:
+        n = int.from_bytes(t[4:6], "big")
+        for i in range(min(n, 3)):
+            e = 12 + 8 * i
+            if e + 8 > len(t):
+                break
+            k = int.from_bytes(t[e + 4:e + 6], "big")
+            for cnt in sorted({k, 1, 3} - {0}):
+                fit = len(t) - 8 * cnt
+                for off in range(max(0, fit - 2), min(0xFFFF, fit + 2 * cnt + 3)):
+                    out.append({"id": "%s:Sill.l%d settings %d at %d (table %d)" % (tag, i, cnt, off, len(t)), "font": path,
+                                "patches": [["Sill", e + 4, 2, cnt], ["Sill", e + 6, 2, off]], "opts": [0, 7]})
+    t = S.table("Feat")
+    if t and len(t) >= 12:
+        v2 = int.from_bytes(t[0:2], "big") >= 2
+        n = int.from_bytes(t[4:6], "big")
+        rec = 16 if v2 else 12
+        for i in range(min(n, 2)):
+            b = 12 + rec * i
+            if b + rec > len(t):
+                break
+            cnt = max(1, int.from_bytes(t[b + (4 if v2 else 2):b + (6 if v2 else 4)], "big"))
+            fit = len(t) - 4 * cnt
+            for off in range(max(0, fit - 2), fit + 6):
+                out.append({"id": "%s:Feat.f%d settings at %d (table %d)" % (tag, i, off, len(t)), "font": path,
+                            "patches": [["Feat", b + (8 if v2 else 4), 4, off]], "opts": [0, 7]})
+    return out
+
+
 def run(ck, tier, seed):
     tmp = vlib.tmpdir("C01")
     q = tier == "quick"
@@ -70,6 +106,7 @@ def run(ck, tier, seed):
     for f in fonts:
         big = os.path.getsize(f) > 400000
         cases += rewrite_cases(f, rng, (3 if big else 6) if q else (8 if big else 14), os.path.basename(f))
+        cases += tail_cases(f, os.path.basename(f))
     # the decompressed form of compressed fonts, so that fields inside compressed tables are reachable
     for f in [x for x in fonts if "compressed" in x or "AwamiNastaliq" in x]:
         S = sfnt.Sfnt(f)
